@@ -149,6 +149,7 @@ def cases(tier: str):
                                      "ret": ["tuple", [Vv("u0"), Vv("tt", 1)]], "subs": [top]})
     yield dict(fam="reconf")
     yield dict(fam="composed_nest")
+    yield dict(fam="twins")
     yield from passthrough_cases()
     yield from repeated_cases()
     # C. the same inner DAG twice in one outer DAG; the same function inside and outside
@@ -311,6 +312,106 @@ def reconf_case(acc, c):
     acc.mark_nontrivial("reconf_between_inlinings_order")
 
 
+TWINS_SRC = '''
+from tawazi import xn, dag
+import twzmc.harness as H
+import twzmc.ir as IRL
+
+@xn
+def add(*a, **k):
+    return H.lib_call("add", IRL.LIB["add"], a, k)
+
+@xn
+def inc(*a, **k):
+    return H.lib_call("inc", IRL.LIB["inc"], a, k)
+
+def make_affine(k, c):
+    # a factory: every call gives a NEW DAG object; all of them carry the same qualname
+    @dag
+    def affine(v):
+        return add(add(v, k), y=c)
+    return affine
+
+def make_deep(k):
+    @dag
+    def leaf(v):
+        return add(v, k)
+    @dag
+    def deep(v):
+        return leaf(inc(v))
+    return deep
+
+A, B = make_affine(2, 1), make_affine(3, 10)
+D1, D2 = make_deep(100), make_deep(200)
+
+@dag
+def inner(v):
+    return add(inc(v), 5)
+
+@dag(max_concurrency={mc}, is_async={is_async})
+def twins(x):
+    r1 = A(x)
+    r2 = B(x)
+    r3 = A(r2)
+    r4 = D1(x)
+    r5 = D2(r4)
+    return r1, r2, r3, r4, r5
+
+@dag(max_concurrency={mc}, is_async={is_async})
+def many(x):
+    outs = []
+    v = x
+    for _ in range(13):  # more than ten calls of one inner DAG: the call numbers reach two digits
+        v = inner(v)
+        outs.append(v)
+    side = [inner(x) for _ in range(2)]
+    return tuple(outs) + tuple(side)
+'''
+
+
+def twins_case(acc, c):
+    """(a) different DAG objects that share a qualname (made by a factory) and differ in the constants of their bodies, inlined
+    side by side and chained; (b) thirteen calls of one inner DAG in one outer DAG. Reference: the plain Python functions."""
+    from ..build import exec_source
+    acc.cases += 1
+    for mc in (1, 3):
+        for is_async in (False, True):
+            try:
+                ns = exec_source(TWINS_SRC.format(mc=mc, is_async=is_async))
+            except BaseException as e:  # noqa: BLE001
+                acc.evaluations += 1
+                acc.violation(V("build_failed", f"building the outer DAGs (twin inner DAGs / thirteen calls of one inner DAG) raised {e!r}", exc=type(e).__name__),
+                              dict(c, mc=mc, is_async=is_async), (), None, TWINS_SRC)
+                continue
+            for x in (0, 3):
+                def aff(k, c_):
+                    return lambda v: v + k + c_
+                a_, b_ = aff(2, 1), aff(3, 10)
+                want_twins = (a_(x), b_(x), a_(b_(x)), x + 1 + 100, (x + 1 + 100) + 1 + 200)
+                chain = []
+                v = x
+                for _ in range(13):
+                    v = v + 1 + 5
+                    chain.append(v)
+                want_many = tuple(chain) + (x + 6, x + 6)
+                for name, want in (("twins", want_twins), ("many", want_many)):
+                    d = ns[name]
+                    if is_async:
+                        async def op(d=d):
+                            return await d(x)
+                    else:
+                        def op(d=d):
+                            return d(x)
+                    res = H.run_controlled(op, is_async=is_async)
+                    acc.evaluations += 1
+                    acc.mark_nontrivial(("twins", name, mc, is_async, x))
+                    if res.outcome != "return" or res.value != want:
+                        acc.violation(V("wrong_value", f"{name}({x}) (max_concurrency={mc}, is_async={is_async}) returned {res.value!r} ({res.outcome} {res.exc!r}), "
+                                        f"plain Python gives {want!r}", dag=name), dict(c, dag=name, mc=mc, is_async=is_async, x=x), (), res.trace, TWINS_SRC)
+                    elif not distinct_ids_ok(d):
+                        acc.violation(V("duplicate_ids", f"{name}: node ids are not distinct", dag=name), dict(c, dag=name), (), None, TWINS_SRC)
+
+
 def distinct_ids_ok(d) -> bool:
     ids = list(d.exec_nodes)
     return len(ids) == len(set(ids))
@@ -321,6 +422,8 @@ def run_one(acc, c):
         return reconf_case(acc, c)
     if c.get("fam") == "composed_nest":
         return composed_nest_case(acc, c)
+    if c.get("fam") == "twins":
+        return twins_case(acc, c)
     prog = c["prog"]
     inputs = [(0,), (3,), (-2,)]
     case = {"prog": prog, "fam": c["fam"], "local_subs": c.get("local_subs", False)}
